@@ -14,14 +14,21 @@ import (
 	"sync/atomic"
 	"time"
 
+	"bytes"
+
+	"github.com/gauss-project/aurorafs/pkg/aurora"
 	"github.com/gauss-project/aurorafs/pkg/boson"
+	"github.com/gauss-project/aurorafs/pkg/p2p"
+	"github.com/gauss-project/aurorafs/pkg/p2p/protobuf"
 	"github.com/gauss-project/aurorafs/pkg/routetab"
+	"github.com/gauss-project/aurorafs/pkg/routetab/pb"
 	"verifharness/hx"
 	"verifharness/routesim"
 )
 
 type jev struct {
-	Op     string `json:"op"` // init find deliver lose dump relay drain
+	Op     string `json:"op"`            // init find deliver lose dump relay relayfind drain
+	Via    bool   `json:"via,omitempty"` // relayfind: through the real onRelayConnChain handler
 	N      int    `json:"n,omitempty"`
 	Target int    `json:"target,omitempty"`
 	I      int    `json:"i,omitempty"`    // soup index (taken modulo the soup length)
@@ -440,6 +447,177 @@ func (s *sim) doRelay(n, target int, path []int) {
 	s.run.Hist("ev.relay")
 }
 
+// the REAL GetNextHopRandomOrFind (direct, or inside the real onRelayConnChain handler) at node n for
+// a relayed request that has visited path (then n).  The fallback FindRoute blocks until its answer
+// arrives, so the call runs in a goroutine while this goroutine plays the network: the initiation
+// and every delivery are recorded as ordinary events.
+func (s *sim) doRelayFind(n, target int, path []int, via bool) {
+	if n == target || len(path) == 0 || s.adj[n][target] {
+		return
+	}
+	full := append(append([]int{}, path...), n)
+	var raw [][]byte
+	var skips []boson.Address
+	for _, x := range full {
+		raw = append(raw, s.net.Nodes[x].Overlay.Bytes())
+		skips = append(skips, s.net.Nodes[x].Overlay)
+	}
+	tg := s.net.Nodes[target].Overlay
+	svc := s.net.Nodes[n].Svc
+	offered := func() []int {
+		var off []int
+		for _, a := range svc.VerifTable().GetNextHop(tg, skips...) {
+			off = append(off, s.net.Index(a.Bytes()))
+		}
+		sort.Ints(off)
+		return off
+	}
+	off1 := offered()
+	before := s.respCount(n, target)
+	kb := s.reqKeys(n)
+	nrel := len(s.net.Relayed)
+	var next boson.Address
+	var err error
+	done := make(chan struct{})
+	go func() {
+		defer close(done)
+		if via {
+			prev := path[len(path)-1]
+			var buf bytes.Buffer
+			_ = protobuf.NewWriter(&buf).WriteMsg(&pb.RouteRelayReq{Src: s.net.Nodes[path[0]].Overlay.Bytes(), Dest: tg.Bytes(),
+				SrcMode: aurora.NewModel().SetMode(aurora.FullNode).Bv.Bytes(), Paths: raw[:len(raw)-1],
+				ProtocolName: []byte("x"), ProtocolVersion: []byte("1"), StreamName: []byte("y")})
+			h := s.net.RelayHandler(n, routetab.StreamOnRelayConnChain)
+			err = h(s.net.Ctx, p2p.Peer{Address: s.net.Nodes[prev].Overlay, Mode: aurora.NewModel().SetMode(aurora.FullNode)}, routesim.NewInStream(buf.Bytes()))
+		} else {
+			next, err = svc.GetNextHopRandomOrFind(s.net.Ctx, tg, skips...)
+		}
+	}()
+	finished := func() bool {
+		select {
+		case <-done:
+			return true
+		default:
+			return false
+		}
+	}
+	// wait for the call to finish or for FindRoute's requests to be out (doRouteReq sends them in
+	// one tight loop and then blocks): the number of opened streams must be stable over 10 ms
+	deadline := time.Now().Add(10 * time.Second)
+	quiet := time.Now().Add(30 * time.Millisecond) // nothing sent by then: every forward was suppressed by the request log
+	for !finished() && time.Now().Before(deadline) {
+		c := s.net.PendingOut()
+		if c > 0 {
+			time.Sleep(10 * time.Millisecond)
+			if s.net.PendingOut() == c {
+				break
+			}
+			continue
+		}
+		if time.Now().After(quiet) {
+			break
+		}
+		time.Sleep(time.Millisecond)
+	}
+	initiated := false
+	var reqTo []int
+	if !finished() || s.net.PendingOut() > 0 {
+		ms := s.net.Flush()
+		var terms string
+		terms, reqTo, _ = s.sentTerms(ms)
+		if grow := s.respCount(n, target) - before; grow > 0 || len(reqTo) > 0 {
+			extra := grow - len(reqTo)
+			if extra < 0 {
+				extra = 0
+			}
+			s.cevs = append(s.cevs, fmt.Sprintf("(CEv (EInit %d %d %s %d) %s)", n, target, nl(reqTo), extra, terms))
+			initiated = true
+			s.run.Hist("ev.init-by-relay")
+		}
+	}
+	// play the network until the call returns (FIFO deliveries; nothing is lost meanwhile)
+	for !finished() && time.Now().Before(deadline) {
+		if len(s.net.Soup) > 0 {
+			s.doDeliver(0)
+		} else {
+			time.Sleep(time.Millisecond)
+		}
+	}
+	if !finished() {
+		s.violate("relay:next-hop-search-hangs", fmt.Sprintf("GetNextHopRandomOrFind at %d for %d path %v did not return", n, target, full), "hang", "a next hop or an error")
+		return
+	}
+	s.net.Flush()
+	if via {
+		// what the handler opened a relay stream to
+		next = boson.ZeroAddress
+		if len(s.net.Relayed) > nrel {
+			next = s.net.Nodes[s.net.Relayed[len(s.net.Relayed)-1].To].Overlay
+		}
+	}
+	findOK := err == nil
+	if via {
+		findOK = !next.IsZero()
+	}
+	if !findOK {
+		// a discovery that gave up: FindRoute's remove() = pendingCalls.Delete per chosen neighbour.
+		// If the call returned before anything could be observed (every forward suppressed, then the
+		// timeout), the initiation is reconstructed from the request-log keys that disappeared.
+		ka := s.reqKeys(n)
+		tk := tg.String()
+		var deleted []int
+		for v := range s.net.Nodes {
+			key := tk + s.net.Nodes[v].Overlay.String()
+			sentTo := false
+			for _, x := range reqTo {
+				if x == v {
+					sentTo = true
+				}
+			}
+			if (kb[key] || sentTo) && !ka[key] {
+				deleted = append(deleted, v)
+			}
+		}
+		if !initiated && len(deleted) > 0 {
+			s.cevs = append(s.cevs, fmt.Sprintf("(CEv (EInit %d %d [] %d) [])", n, target, len(deleted)))
+			initiated = true
+			s.run.Hist("ev.init-by-relay")
+		}
+		if initiated {
+			for _, v := range deleted {
+				s.cevs = append(s.cevs, fmt.Sprintf("(CEv (EExpDelete %d %d %d) [])", n, target, v))
+			}
+		}
+	}
+	off2 := offered()
+	obs := "None"
+	s.run.OracleChecked(1)
+	if !next.IsZero() {
+		ni := s.net.Index(next.Bytes())
+		obs = fmt.Sprintf("(Some %d)", ni)
+		if ni != target {
+			for _, x := range full {
+				if x == ni {
+					s.violate("relay:next-hop-already-on-path", fmt.Sprintf("node %d relays for %d with path %v to %d (GetNextHopRandomOrFind, discovery initiated=%v, via handler=%v)", n, target, full, ni, initiated, via), ni, "a node not on the path")
+				}
+			}
+		}
+		if ni < 0 || !s.adj[n][ni] {
+			s.violate("relay:next-hop-not-a-neighbour", fmt.Sprintf("node %d relays for %d to %d", n, target, ni), ni, "a neighbour")
+		}
+	}
+	fo := "false"
+	if findOK {
+		fo = "true"
+	}
+	s.cevs = append(s.cevs, fmt.Sprintf("(CRelayFind %d %d %s %s %s %s %s)", n, target, nl(full), nl(off1), fo, nl(off2), obs))
+	if initiated {
+		s.run.Hist("ev.relayfind.discovery")
+	} else {
+		s.run.Hist("ev.relayfind.direct")
+	}
+}
+
 // deliver everything that is left, in pseudo-random order, within a budget
 func (s *sim) drain(r *hx.Rand) {
 	budget := 20000
@@ -457,6 +635,7 @@ func runCase(run *hx.Run, jc jcase) {
 	atomic.StoreInt32(&routetab.MaxTTL, int32(jc.MaxTTL))
 	routetab.NeighborAlpha = int32(jc.Alpha)
 	routetab.PendingTimeout = time.Hour
+	routetab.VerifSetFindTimeout(300 * time.Millisecond)
 	adj := make([][]bool, jc.Nodes)
 	for i := range adj {
 		adj[i] = make([]bool, jc.Nodes)
@@ -487,6 +666,8 @@ func runCase(run *hx.Run, jc jcase) {
 			s.doDump()
 		case "relay":
 			s.doRelay(e.N, e.Target, e.Path)
+		case "relayfind":
+			s.doRelayFind(e.N, e.Target, e.Path, e.Via)
 		case "drain":
 			s.drain(dr)
 		}
@@ -546,6 +727,10 @@ func corpus() []jcase {
 		{Name: "F-route-resp-dup: two requesters pending at one relay", Seed: 1, Nodes: 5, Edges: [][2]int{{0, 2}, {1, 2}, {2, 3}, {3, 4}}, Alpha: 2, MaxTTL: 10,
 			Evs: []jev{{Op: "init", N: 0, Target: 4}, {Op: "init", N: 1, Target: 4}, {Op: "deliver", I: 0}, {Op: "deliver", I: 0}, {Op: "deliver", I: 0}, {Op: "deliver", I: 0},
 				{Op: "deliver", I: 0}, {Op: "deliver", I: 0}, {Op: "deliver", I: 0}, {Op: "deliver", I: 0}, {Op: "dump"}, {Op: "drain"}, {Op: "relay", N: 0, Target: 4}, {Op: "relay", N: 2, Target: 4, Path: []int{0}}}},
+		{Name: "seeded C28-1: relay at the end of a line must not bounce back (second lookup after FindRoute)", Seed: 4, Nodes: 4, Edges: line(4), Alpha: 2, MaxTTL: 10,
+			Evs: []jev{{Op: "relayfind", N: 0, Target: 3, Path: []int{1}, Via: true}, {Op: "dump"}, {Op: "drain"}}},
+		{Name: "seeded C28-1, direct call, branch in the middle", Seed: 5, Nodes: 5, Edges: [][2]int{{0, 1}, {1, 2}, {2, 3}, {1, 4}}, Alpha: 2, MaxTTL: 10,
+			Evs: []jev{{Op: "relayfind", N: 4, Target: 3, Path: []int{0, 1}}, {Op: "dump"}, {Op: "relayfind", N: 0, Target: 3, Path: []int{1}}, {Op: "drain"}}},
 		{Name: "line of 6, ttl cut", Seed: 2, Nodes: 6, Edges: line(6), Alpha: 2, MaxTTL: 3,
 			Evs: []jev{{Op: "init", N: 0, Target: 5}, {Op: "drain"}, {Op: "dump"}, {Op: "init", N: 0, Target: 3}, {Op: "drain"}, {Op: "relay", N: 0, Target: 3}}},
 		{Name: "ring with chord, loop back", Seed: 3, Nodes: 5, Edges: [][2]int{{0, 1}, {1, 2}, {2, 3}, {3, 4}, {0, 3}}, Alpha: 4, MaxTTL: 4,
@@ -589,6 +774,22 @@ func genCase(r *hx.Rand) jcase {
 			jc.Evs = append(jc.Evs, jev{Op: "lose", I: r.Intn(64)})
 		case x < 90:
 			jc.Evs = append(jc.Evs, jev{Op: "dump"})
+		case x < 92 && jc.MaxTTL >= n:
+			// the relayed request came in through one of the node's neighbours
+			a := r.Intn(n)
+			var nb []int
+			for _, e := range jc.Edges {
+				if e[0] == a {
+					nb = append(nb, e[1])
+				} else if e[1] == a {
+					nb = append(nb, e[0])
+				}
+			}
+			p := []int{nb[r.Intn(len(nb))]}
+			if r.Bool() {
+				p = append([]int{r.Intn(n)}, p...)
+			}
+			jc.Evs = append(jc.Evs, jev{Op: "relayfind", N: a, Target: r.Intn(n), Path: p, Via: r.Bool()})
 		case x < 97:
 			var p []int
 			for k := r.Intn(3); k > 0; k-- {
